@@ -491,7 +491,7 @@ func (e *Engine) writeReplay(prop string, res *FuncResult, g *Goal, o runOpts) r
 	}
 	confirmed := false
 	// candidate search for undecided obligations is budgeted per run: functional and safety clauses only
-	relaxed := g.Status == "unknown" && !g.ExpectSat && res.X != nil && res.Fn != nil && (g.Kind == "post" || g.Kind == "safety" || g.Kind == "inv-keep")
+	relaxed := g.Status == "unknown" && !g.ExpectSat && res.X != nil && res.Fn != nil && (g.Kind == "post" || g.Kind == "safety" || g.Kind == "inv-keep" || g.Kind == "hint")
 	if relaxed {
 		relaxBudgetMu.Lock()
 		if relaxBudget <= 0 {
@@ -552,7 +552,7 @@ func (e *Engine) writeReplay(prop string, res *FuncResult, g *Goal, o runOpts) r
 				conf, why = e.confirmPostOpt(res, g, w, out, o, relaxed)
 				rp["confirmation"] = why
 			}
-			if !conf && (g.Kind == "inv-keep" || g.Kind == "inv-init") && res.Fn != nil && g.Func == fnKey(res.Fn) && strings.Contains(out, "GVC-DONE") {
+			if !conf && (g.Kind == "inv-keep" || g.Kind == "inv-init" || g.Kind == "hint") && res.Fn != nil && g.Func == fnKey(res.Fn) && strings.Contains(out, "GVC-DONE") {
 				// a loop-invariant counterexample: run the function on the model's inputs and
 				// evaluate the function's own postconditions on the observed execution
 				for _, pg := range res.Goals {
